@@ -6,6 +6,8 @@ import corpus
 from common import SPEC, MachineryError, run_tlc, workdir
 
 ALPHABET = 'Vars = {"va", "vb", "vc"}\n Consts = {0, 1, 2, 3}\n Devs = {"d0", "d1"}\n Ops = {"+", "-", "*"}\n Cmps = {"<", "<=", "==", "!=", ">", ">="}\n'
+# the exhaustive configuration: every program of two lines over this alphabet (2178 programs)
+TINY = 'Vars = {"va"}\n Consts = {1}\n Devs = {"d0"}\n Ops = {"+"}\n Cmps = {"<"}\n'
 SMALL = 'Vars = {"va", "vb"}\n Consts = {1, 2}\n Devs = {"d0"}\n Ops = {"+", "*"}\n Cmps = {"<", "=="}\n'
 
 
@@ -50,17 +52,19 @@ def line_text(l):
     raise MachineryError("unknown line kind " + k)
 
 
-def render(p, fn_prefix="", call_prefix=""):
+def render(p, fn_prefix="", call_prefix="", decorator=None):
     out = [corpus.HEADER.rstrip("\n")]
-    out += _defs(p, fn_prefix)
+    out += _defs(p, fn_prefix, decorator)
     out += _main(p, call_prefix or fn_prefix)
     return "\n".join(out) + "\n"
 
 
-def _defs(p, prefix):
+def _defs(p, prefix, decorator=None):
     out = []
     names = ["fa", "fb"]
     for i, f in enumerate(p["fns"]):
+        if decorator:
+            out.append(decorator)
         out.append("def %s%s(%s):" % (prefix, names[i], ", ".join(f["params"])))
         for l in f["lines"]:
             out.append("    " * l["ind"] + line_text(l))
@@ -86,11 +90,11 @@ def render_split(p, module="ml"):
     return {"": main, module: lib}, merged
 
 
-def generate(name, n, seed, max_lines=6, max_depth=2, nfuncs=1, exhaustive=False, alphabet=ALPHABET):
+def generate(name, n, seed, max_lines=6, max_depth=2, nfuncs=1, exhaustive=False, alphabet=ALPHABET, pure=False):
     """programs from ProgGen.tla: `n` simulated behaviours (seeded), or all behaviours of a small configuration"""
     d = workdir(name)
     cfg = ("SPECIFICATION Spec\nCONSTANTS\n MaxLines = %d\n MinLines = %d\n MaxDepth = %d\n MaxFnLines = 3\n NFuncs = %d\n %sINVARIANT WellNested\nINVARIANT Export\nCHECK_DEADLOCK FALSE\n"
-           % (max_lines, 1 if exhaustive else max(1, max_lines - 3), max_depth, nfuncs, alphabet + (" Sample = FALSE\n" if exhaustive else " Sample = TRUE\n")))
+           % (max_lines, 1 if exhaustive else max(1, max_lines - 3), max_depth, nfuncs, alphabet + (" Pure = %s\n" % ("TRUE" if pure else "FALSE")) + (" Sample = FALSE\n" if exhaustive else " Sample = TRUE\n")))
     with open(os.path.join(d, "ProgGen.cfg"), "w") as f:
         f.write(cfg)
     if exhaustive:
@@ -112,5 +116,5 @@ def generate(name, n, seed, max_lines=6, max_depth=2, nfuncs=1, exhaustive=False
         random.Random(seed).shuffle(keys)
         keys = sorted(keys[:n])
     for k, key in enumerate(keys):
-        out.append(("pg_%s_%04d" % (name[-4:], k), render(progs[key]), progs[key]))
+        out.append(("pg_%s_%04d" % (name[-4:], k), render(progs[key], decorator="@constexpr" if pure else None), progs[key]))
     return out, r
